@@ -2,11 +2,12 @@
   UnytModel.Driver — dispatch over the per-property opcode handlers and the I/O loop.
 -/
 import UnytModel.Ops.Core
+import UnytModel.Ops.Tables
 
 namespace Unyt
 
 /-- registered handlers, tried in order; an opcode nobody claims answers `bad-op` -/
-def handlers : List Handler := [opsCore]
+def handlers : List Handler := [opsCore, opsTables]
 
 def step (st : DriverState) (fields : List String) : DriverState × String :=
   let rec go : List Handler → DriverState × String
